@@ -403,6 +403,13 @@ async def _interp(run: Run, sdef: dict, ctx: Context, ev: Any, rn: int) -> Any:
         elif op == "store_incr":
             async with ctx.store.edit_state() as st:
                 st[act[1]] = st.get(act[1], 0) + 1
+        elif op == "chain":
+            # one long chain through a single step: forward the event with k+1 (uid+1) until k reaches act[2], then fall through
+            kk = getattr(ev, "k", None) or 0
+            if kk < act[2]:
+                nxt = ET.mk(act[1], (uid or 0) + 1, kk + 1)
+                run._last_ret = (str(act[1]), nxt.uid)  # type: ignore[attr-defined]
+                return nxt
         elif op == "ret":
             return _ret_value(run, act, ev)
         else:
